@@ -102,6 +102,21 @@ PROPS = {
         "assumptions": ["crash model = process death; durable floor credited only to returned Flush/Sync/SaveSnapshot/RewriteAOF/VImportCommit/VCompress/Close and to ops documented to flush (KVDelete, VAddBatch, VUpdateIndexConfig); periodic ticks are not credited",
                         "edge history (deletion timestamps) is not compared on crash images: recovery legitimately stamps repaired cascade unlinks with the recovery time"],
     },
+    "C03": {
+        "level": "fault_enumeration", "quick": 3000, "thorough": 200000, "batch": 25, "vlimit_kb": 6 * 1024 * 1024,
+        "rule": ("(b, the simulated part) a log of 4-44 commands (SET/DEL with unique values, VCREATE, VADD with and without metadata, GLINK with and "
+                 "without properties) is produced by the real engine, then 1-3 byte-level damages (bit flip, overwrite, delete, insert garbage "
+                 "that may contain the frame marker and RESP punctuation, truncate) are applied at positions aimed at frame structure (magic, opcode, "
+                 "each length byte, each CRC byte, payload start/middle/end, frame boundary) or uniform; engine.Open on the damaged file must not "
+                 "panic, must not refuse unless byte 0 is not the marker, peak RSS growth < 1 GB, and the recovered state must equal the in-order "
+                 "application of exactly the frames the harness's own scanner finds intact (nothing fabricated or garbled, every intact later frame applied). "
+                 "(a, plain input generation, 40 cases per run) ParseCommand(FormatCommand) and ReadFrame(WriteFrame) round trips with nil/empty/CRLF/NUL/"
+                 "0xA5 arguments, hex vectors bit-exact over all float32 classes, decimal vectors value-exact. Non-trivial: >=1 damage applied; distinct = "
+                 "command kinds + damage kinds/positions."),
+        "real_vs_stub": REAL + "; frame scanner and RESP parser of the oracle are the harness's own",
+        "assumptions": ["argument values do not contain a complete well-formed frame (runs where random damage fabricates one are skipped: probe fabricated_frame_by_chance)",
+                        "process address space limited to 6 GB by the driver (RLIMIT_AS); per-process timeout"],
+    },
 }
 
 
@@ -111,6 +126,12 @@ NOT_APPLICABLE["C20"] = ("pure functions of their input (text analysis, chunking
                          "no schedule, fault or interleaving for a simulator to decide; property-based testing territory, see DESIGN.md section 7")
 
 MANIFEST_TEXT = {
+    "C03": {
+        "text": "Stored-byte faults are injected into logs written by the real engine at positions enumerated over the frame structure; recovery by the real engine is compared with the in-order application of the frames an independent scanner finds intact. The codec round-trip half is plain input generation and is reported as such.",
+        "design_ref": "DESIGN.md section 6 C03",
+        "note": "Damage positions and command logs are sampled, not exhaustive. Intactness is judged by the harness's own frame scanner; memory is bounded by RLIMIT_AS and measured as peak-RSS growth.",
+        "technique": "deterministic simulation with stored-byte fault injection (flip/overwrite/delete/insert/truncate at frame-structure positions) + independent frame-scanner oracle",
+    },
     "C02": {
         "text": "Crash points are enumerated over the file-system event stream of real runs (before every event of multi-step operations in the thorough tier, sampled in quick; torn writes; a second crash inside recovery). Each image is recovered by the real engine and compared item by item with the set of values the reference model says the item held since its last durable write; fixed point and write-after-repair are checked on every image.",
         "design_ref": "DESIGN.md section 6 C02",
